@@ -115,7 +115,12 @@ func pointOnAreaSurface(poly Polygon) (Point, float64) {
 			xIntercepts = append(xIntercepts, inter.ptA.X)
 		}
 	}
-	xIntercepts = sortAndUniquifyFloats(xIntercepts)
+	// The intercepts are sorted but deliberately not de-duplicated. Each one
+	// is a proper crossing of a different edge (the bisector avoids all
+	// control points), so consecutive pairs always delimit the interior, even
+	// when two crossings next to a control point that is only a few ULPs away
+	// from the bisector round to the same X value.
+	sort.Float64s(xIntercepts)
 
 	// Find largest portion of bisector that intersects the polygon.
 	if len(xIntercepts) < 2 || len(xIntercepts)%2 != 0 {
@@ -131,22 +136,12 @@ func pointOnAreaSurface(poly Polygon) (Point, float64) {
 			bestA, bestB = newA, newB
 		}
 	}
+	if bestA == bestB {
+		// Everywhere along the bisector the interior is thinner than the
+		// float64 spacing, so there is no interior point to return.
+		return poly.ExteriorRing().StartPoint().Force2D(), 0
+	}
 	midX := (bestA + bestB) / 2
 
 	return XY{midX, midY}.AsPoint(), bestB - bestA
-}
-
-func sortAndUniquifyFloats(fs []float64) []float64 {
-	if len(fs) == 0 {
-		return fs
-	}
-	sort.Float64s(fs)
-	n := 1
-	for i := 1; i < len(fs); i++ {
-		if fs[i] != fs[i-1] {
-			fs[n] = fs[i]
-			n++
-		}
-	}
-	return fs[:n]
 }
